@@ -425,11 +425,20 @@ theorem vertexBlock_length (c : Coding α) (e : Endian) (m : MeshVal α) (hwf : 
   rw [h4 h2 (fun r hr' => hr'), hlen]
 
 
+theorem writeBody_core_of_ok {α : Type} (c : Coding α) (cfg : WriterCfg) (m : MeshVal α) (body : Bytes)
+    (h : writeBody c cfg m = .ok body) :
+    namesOK (((selectWriters cfg m).map WProp.names).flatten) = true ∧ writeBodyCore c cfg m = .ok body := by
+  simp only [writeBody] at h
+  split at h
+  · rename_i hn; exact ⟨hn, h⟩
+  · simp at h
+
 theorem writeBody_binary_length (c : Coding α) (cfg : WriterCfg) (m : MeshVal α) (body : Bytes)
     (hf : cfg.format ≠ .ascii) (hwf : m.WF = true) (h : writeBody c cfg m = .ok body) :
     body.length = m.attrLen * ((writerTypes (selectWriters cfg m)).map SType.size).sum
       + (if m.topo = .triangle then triCount m * faceSize (hasTexCoord m) else 0) := by
-  simp only [writeBody] at h
+  obtain ⟨_, h⟩ := writeBody_core_of_ok c cfg m body h
+  simp only [writeBodyCore] at h
   cases hrecs : (List.range m.attrLen).mapM (vertexRecord m (selectWriters cfg m)) with
   | error e => simp [hrecs, bind, Except.bind] at h
   | ok recs =>
